@@ -633,7 +633,7 @@ Proof.
   assert (0 <= cur * P * P / last / P) by (apply div_nonneg; lia). lia.
 Qed.
 
-(* the sharp bound: q is within (1/2 + 1/P) units of the 18th decimal of the exact cur/last.
+(* the tighter bound: q is within (1/2 + 1/P) units of the 18th decimal of the exact cur/last.
    (The 1/P comes from truncating the 36-digit intermediate before the banker's rounding.) *)
 Lemma dec_quo_half : forall cur last, 0 <= cur -> 0 < last ->
   let q := dec_quo (dec_of_int cur) (dec_of_int last) in
@@ -695,7 +695,7 @@ Proof.
   set (q := dec_quo (dec_of_int cur) (dec_of_int last)) in *. nia.
 Qed.
 
-(* the same two with the sharp rounding bound (scaled by 2 to stay in integers) *)
+(* the same two with the tighter rounding bound (scaled by 2 to stay in integers) *)
 Lemma extend_rule_sound_half : forall cur last rate, 0 <= cur -> 0 < last ->
   2 * (rate * last) <= 2 * ((last - cur) * P) - last -> extend_rule cur last rate = true.
 Proof.
